@@ -57,7 +57,15 @@ func tap(tr *vh.Trace, dir string) cs.FrameTap {
 }
 
 // interesting message lengths: around the WriteBuf boundaries and the limit
-func pickLen(r *rand.Rand, big bool) int {
+func pickLen(r *rand.Rand, big bool, limit int) int {
+	n := pickLen1(r, big)
+	if limit > 0 && n > limit {
+		n = n % limit
+	}
+	return n
+}
+
+func pickLen1(r *rand.Rand, big bool) int {
 	edges := []int{0, 1, 2, bufSize - hdrSize - 1, bufSize - hdrSize, bufSize - hdrSize + 1,
 		bufSize - 1, bufSize, bufSize + 1, 2*bufSize - hdrSize, 2*bufSize - hdrSize - 1, 2*bufSize - hdrSize + 1,
 		2 * bufSize, 3*bufSize - 2*hdrSize}
@@ -213,6 +221,14 @@ func scenario(tr *vh.Trace, rnd *rand.Rand, s, nscen int) (int, int64, bool) {
 			}
 		}
 	}
+	// byte-at-a-time cutting only with moderate message sizes (time)
+	limit := 0
+	for _, m := range []int{chc.MaxRead, chc.MaxWrite, chs.MaxRead, chs.MaxWrite} {
+		if m > 0 && m <= 9 {
+			limit = 3*bufSize + 100
+			chc.Yield, chs.Yield = 2000, 2000
+		}
+	}
 	cl, sv := cs.Pipe("10.1.0.1:1", "10.9.9.9:3147", chc, chs)
 	cl.SetTap(tap(tr, "c2s"))
 	sv.SetTap(tap(tr, "s2c"))
@@ -235,10 +251,10 @@ func scenario(tr *vh.Trace, rnd *rand.Rand, s, nscen int) (int, int64, bool) {
 			defer wg.Done()
 			sid := ses.Id()
 			for m := 1; m <= nmsg; m++ {
-				n := pickLen(r, big)
+				n := pickLen(r, big, limit)
 				req := make([]byte, n)
 				if n >= 8 {
-					rl := pickLen(r, big)
+					rl := pickLen(r, big, limit)
 					if rl >= maxSize {
 						rl = maxSize - 1 // response = 1 + rl bytes
 					}
